@@ -897,7 +897,11 @@ func (fr *Frame) callbackLoop(st *State, cl *Closure, pname string, env *SpecEnv
 		// the body of a range-over-func statement: its invariants are the
 		// `loop N invariant` clauses of that statement (N counted among the
 		// loops of the enclosing function, like every other loop)
-		for i, ls := range x.w.loopStmts(cl.fn.Parent()) {
+		outer := cl.fn
+		for outer.Parent() != nil {
+			outer = outer.Parent()
+		}
+		for i, ls := range x.w.loopStmts(outer) {
 			if ls == cl.fn.Syntax() {
 				invKey = i + 1
 				ord = 1000 + i + 1
